@@ -27,6 +27,8 @@ fn k_of(e: &Entry) -> u64 {
         Entry::McLegacy | Entry::McGameLegacy => 3,
         Entry::McJava { .. } | Entry::McGameJava { .. } => 3,
         Entry::Generic { .. } => 15,
+        // the HTTP client follows up to 5 redirects and re-sends once on a stale pooled connection
+        Entry::Eco { .. } => 12,
         _ => 1,
     }
 }
@@ -126,7 +128,7 @@ impl Prop for C13 {
         vec![
             "allocations made inside the simulator backend are excluded from the measurement by a thread-local depth marker".into(),
             "runs that panic are left to C01; runs that abort on a > 256 MiB request are violations of both".into(),
-            "K is a deliberately loose per-entry constant (12 for Valve-based entries, 15 for auto-detecting Minecraft, 1-3 otherwise)".into(),
+            "K is a deliberately loose per-entry constant (12 for Valve-based entries, 15 for auto-detecting Minecraft, 12 for the HTTP game: up to 5 redirects, each request re-sent at most once on a stale pooled connection; 1-3 otherwise)".into(),
         ]
     }
 
